@@ -141,7 +141,7 @@ func (e *c19Cloud) GetNodeInfoForPod(_ context.Context, _ string) (*eflo.Content
 // c19Recorder drops events (record.FakeRecorder blocks when its buffer is full).
 type c19Recorder struct{}
 
-func (c19Recorder) Event(runtime.Object, string, string, string)                    {}
+func (c19Recorder) Event(runtime.Object, string, string, string)                  {}
 func (c19Recorder) Eventf(runtime.Object, string, string, string, ...interface{}) {}
 func (c19Recorder) AnnotatedEventf(runtime.Object, map[string]string, string, string, string, ...interface{}) {
 }
@@ -211,16 +211,23 @@ func c19RunAnno(c *vt.Ctx, s c19AnnoScenario) {
 		nodeStatusCache: status.NewCache[status.NodeStatus](),
 	}
 	req := reconcile.Request{NamespacedName: k8stypes.NamespacedName{Name: c19NodeName}}
-	reconcileOnce := func(step string) {
+	// a refused reconcile is not a violation (nothing new is advertised): the first one
+	// must succeed for the case to mean anything, later ones are only made visible and
+	// the node is inspected as it stands
+	reconcileOnce := func(step string, must bool) {
 		_, err := r.Reconcile(ctx, req)
 		c19DrainNotify()
 		if err != nil {
-			c.Fatalf("%s: Reconcile failed: %v", step, err)
+			c.Trace("%s: Reconcile failed: %v", step, err)
+			if must {
+				c.Inconclusive("controller reconcile refused: " + step)
+			}
+			c.Label("reconcile-error:" + step)
 		}
 	}
 
 	// ---- 1. node appears
-	reconcileOnce("first reconcile")
+	reconcileOnce("first", true)
 	cr := &networkv1beta1.Node{}
 	if err := cl.Get(ctx, client.ObjectKey{Name: c19NodeName}, cr); err != nil {
 		c.Fatalf("Node CR not created: %v", err)
@@ -365,7 +372,7 @@ func c19RunAnno(c *vt.Ctx, s c19AnnoScenario) {
 
 	// ---- 3. controller reconciles again
 	for i := 0; i < s.Rounds; i++ {
-		reconcileOnce(fmt.Sprintf("reconcile #%d after the daemon reported", i+1))
+		reconcileOnce("after-daemon", false)
 	}
 	got := &corev1.Node{}
 	if err := cl.Get(ctx, client.ObjectKey{Name: c19NodeName}, got); err != nil {
